@@ -293,8 +293,6 @@ class Array(Processor):
 
     def process(self, ctx: ProcessContext, di: DataIndexer, accessor: Accessor) -> None:
         with di.index_stack_maintain():
-            # Record current number of bits processed.
-            i = ctx.i
             # Opponent array capacity if extensible set.
             ahead = 0
 
@@ -306,6 +304,9 @@ class Array(Processor):
                     # Decode extensible ahead  if extensible.
                     ahead = self.decode_extensible_ahead(ctx)
 
+            # Record number of bits processed before the first element.
+            j = ctx.i
+
             # Process array elements.
             for k in range(self.capacity):
                 di.index_stack_replace(k)
@@ -313,7 +314,10 @@ class Array(Processor):
 
             # Skip redundant bits post decoding.
             if self.extensible and not ctx.is_encode:
-                ito = i + ahead * self.capacity
+                # Number of bits an element occupies in the stream (an element may
+                # be an extended message, so measure it from what was consumed).
+                element_nbits = (ctx.i - j) // self.capacity
+                ito = j + ahead * element_nbits
                 if ito >= ctx.i:
                     ctx.i = ito
 
